@@ -65,9 +65,15 @@ def run(ctx):
     from . import c14
     from .common import RemapCtx, child_record_rules
     c14.d1_inserts(RemapCtx(ctx, {'C14-D1': 'C01-D1'}))
+    # the record read back carries the URL, parent and root that were stored (shared schema rule of C14)
+    c14.d1_schema(RemapCtx(ctx, {'C14-D1': 'C01-D1'}))
     # the queue insert takes its key from the url string table by the URL text (shared with C14)
     c14.d3_add_many(RemapCtx(ctx, {'C14-D2': 'C01-D1', 'C14-D3': 'C01-D1'}))
     c14.d2_add_urls(RemapCtx(ctx, {'C14-D2': 'C01-D1'}))
+
+    # links are resolved against (and scope is judged on) the request of the current redirect hop
+    from .common import current_request_rule
+    current_request_rule(ctx, 'C01-D2')
 
     # ------------------------------------------------------------------ D2
     PARSERS = {'parse', 'parse_url_or_log', 'parse_url', 'rewrite_url', 'rewrite'}
